@@ -15,12 +15,14 @@ MANIFEST = dict(
     text="Theorems C20_summary_counts, C20_text_summary_agrees, C20_totals_are_sums, C20_breakdown_partitions, C20_check_and_stats_same_counts, "
          "C20_permute_is_permutation / C20_permute_complete (pi ranges over exactly the orders a HashMap can produce), C20_deterministic_modulo_ties, "
          "C20_breakdown_deterministic and C20_registry_deterministic (unconditional for the repaired sort key / registration order), "
-         "C20_html_escape_charwise, C20_html_escape_safe, C20_html_escape_injective, C20_presentation_flags_inert and the listing theorems hold for "
+         "C20_html_escape_charwise, C20_html_escape_safe, C20_html_escape_injective, C20_uri_roundtrip / C20_uri_wellformed (SARIF uri encoder), "
+         "C20_presentation_flags_inert and the listing theorems hold for "
          "all result lists, file lists, permutations and strings (unbounded). Cross-format agreement, JSON/SARIF well-formedness and run-to-run "
          "byte identity are established by the correspondence run only.",
     note="Trusted: Coq kernel, extraction (ExtrOcamlBasic), harness sgv-report, the python extractors for text/Markdown/HTML, a hand-transcribed "
          "subset of the SARIF 2.1.0 schema (the official schema file is not in the sandbox), serde_json, std HashMap (any iteration order is a "
-         "permutation), rayon's order-preserving collect. D23 (tie order, shared extension, config hash) repaired by fixes/D23-*.patch.",
+         "permutation), rayon's order-preserving collect. D23 (tie order, shared extension, config hash), D31 (--suggest with a non-UTF-8 name) and "
+         "D37 (SARIF uri not percent-encoded) are repaired by fixes/D23-*, D31-*, D37-*.patch.",
     ref="5 (C20)")
 
 FORMATS = ["text", "json", "sarif", "markdown", "html"]
@@ -35,7 +37,7 @@ def model_generation(ctx):
 
 def prepare(ctx):
     bins = cargo_build(["sgcli", "sgv-report"])
-    ok, log = coq_make(["Report/Summary.vo", "Report/Stats.vo", "Report/Escape.vo", "Extract/ExtractReport.vo"])
+    ok, log = coq_make(["Report/Summary.vo", "Report/Stats.vo", "Report/Escape.vo", "Report/Uri.vo", "Extract/ExtractReport.vo"])
     if not ok:
         raise CheckBroken("coq model build failed:\n" + log[-3000:])
     model = ModelProc(ocaml_build("report_drv", ["report_ex"]))
@@ -166,14 +168,12 @@ def cross_format(acc, model, outputs, case, where):
             if got != exp:
                 acc.fails.append(("%s: text lists %s, json failed+warning are %s" % (where, sorted(got.items())[:4], sorted(exp.items())[:4]), case))
         elif name == "sarif":
+            if P["bad_uris"]:
+                acc.fails.append(("%s: sarif: artifactLocation.uri %r is not a valid RFC 3986 URI-reference (unreserved, slash, %%XX only)" % (
+                    where, P["bad_uris"][0]), case))
             if got != ref_np:
-                acc.fails.append(("%s: sarif lists %s, json non-passed are %s" % (where, sorted(got.items())[:4], sorted(ref_np.items())[:4]), case))
-            dec_np = collections.Counter((percent_decode(u), st) for u, st in P["entries"])
-            changed = [u for u, _ in P["entries"] if percent_decode(u) != u]
-            if got == ref_np and (P["bad_uris"] or changed):
-                acc.known.append(("sarif-uri-not-percent-encoded", "%s: artifactLocation.uri %r is not an RFC 3986 URI-reference%s" % (
-                    where, (changed or P["bad_uris"])[0],
-                    "; percent-decoding it names a different file" if changed else ""), case))
+                acc.fails.append(("%s: sarif: percent-decoding the uris names %s, json non-passed are %s" % (
+                    where, sorted((got - ref_np).items())[:3], sorted((ref_np - got).items())[:3]), case))
         else:  # markdown
             if got != ref_np:
                 acc.fails.append(("%s: markdown lists %s, json non-passed are %s" % (where, sorted(got.items())[:4], sorted(ref_np.items())[:4]), case))
@@ -184,12 +184,16 @@ def cross_format(acc, model, outputs, case, where):
     wr = w_results(rows)
     lines = ["summary\t" + wr, "agg\t" + wr, "listed\ttext\t0\t" + wr, "listed\ttext\t1\t" + wr, "listed\tsarif\t0\t" + wr,
              "listed\tmarkdown\t0\t" + wr, "listed\thtml\t0\t" + wr, "listed\tjson\t0\t" + wr]
+    uri_from = len(lines)
+    np_paths = [p for p, st in ref if st != "passed"]
+    if "sarif" in parsed:
+        lines += ["uri\t" + (",".join(str(b) for b in p.encode("utf-8")) or "-") for p in np_paths]
     esc_from = len(lines)
     if "html" in parsed:
         lines += ["esc\t" + enc(p) for p, _ in ref]
         lines += ["esc\t" + enc(r["override_reason"]) for r in J["rows"] if r.get("override_reason") is not None]
     mo = ask(model, lines)
-    acc.model_lines += list(zip(lines, mo))[:3] + list(zip(lines, mo))[esc_from:esc_from + 2]
+    acc.model_lines += list(zip(lines, mo))[:3] + list(zip(lines, mo))[uri_from:uri_from + 2] + list(zip(lines, mo))[esc_from:esc_from + 2]
     ms = [int(x) for x in mo[0].split(" | ")[0].split()]
     mt = [int(x) for x in mo[0].split(" | ")[1].split()]
     wl = [want["total"], want["passed"], want["warning"], want["failed"], want["grandfathered"]]
@@ -199,6 +203,16 @@ def cross_format(acc, model, outputs, case, where):
     for name, idx in (("text", 2), ("text_v", 3), ("sarif", 4), ("markdown", 5), ("html", 6), ("json", 7)):
         if name in parsed and r_entries(mo[idx]) != parsed[name]["entries"]:
             bad.append("listing order of %s: model %s, tool %s" % (name, r_entries(mo[idx])[:5], parsed[name]["entries"][:5]))
+    if "sarif" in parsed:
+        m_uris = []
+        for p, o in zip(np_paths, mo[uri_from:esc_from]):
+            f = o.split("\t")
+            if f[1] != "1" or bytes(int(x) for x in f[2].split(",") if x != "-") != p.encode("utf-8"):
+                raise CheckBroken("extracted uri_encode violates its own theorems on %r: %s" % (p, o[:200]))
+            m_uris.append(dec(f[0]))
+        if m_uris != parsed["sarif"]["uris"]:
+            k = next((i for i, (a, b) in enumerate(zip(m_uris, parsed["sarif"]["uris"])) if a != b), 0)
+            bad.append("sarif uri: model %r, tool %r" % (m_uris[k:k + 1], parsed["sarif"]["uris"][k:k + 1]))
     if "html" in parsed:
         H = parsed["html"]
         agg = [int(x) for x in mo[1].split()]
@@ -799,7 +813,7 @@ def load_corpus(kind):
 
 def xcheck(ctx, acc, k):
     """Evaluate a sub-sample of the model queries inside Coq (vm_compute) and compare with the extracted driver."""
-    pool = [(l, o) for l, o in acc.model_lines if l.split("\t")[0] in ("summary", "esc", "bylang", "totals") and len(l) < 1500]
+    pool = [(l, o) for l, o in acc.model_lines if l.split("\t")[0] in ("summary", "esc", "uri", "bylang", "totals") and len(l) < 1500]
     ctx.rng.shuffle(pool)
     pick = pool[:k]
     exprs, expect = [], []
@@ -821,6 +835,9 @@ def xcheck(ctx, acc, k):
             rs = "[" + "; ".join(res(i) for i in f[1].split(";")) + "]" if f[1] != "-" else "[]"
             exprs.append("let s := summarize %s in [s_total s; s_passed s; s_warnings s; s_failed s; s_grandfathered s]" % rs)
             expect.append([int(x) for x in o.split(" | ")[0].split()])
+        elif f[0] == "uri":
+            exprs.append("uri_encode [%s]" % ";".join(x for x in f[1].split(",") if x != "-"))
+            expect.append([ord(c) for c in dec(o.split("\t")[0])])
         elif f[0] == "esc":
             exprs.append("html_escape %s" % coq_str(dec(f[1])))
             expect.append([ord(c) for c in dec(o.split("\t")[0])])
@@ -840,7 +857,7 @@ def xcheck(ctx, acc, k):
     if not exprs:
         ctx.cov["extraction_crosscheck"] = {"cases": 0, "disagreements": 0}
         return
-    got = coq_eval("From Coq Require Import NArith List.\nFrom SG Require Import Report.Summary Report.Stats Report.Escape.", exprs)
+    got = coq_eval("From Coq Require Import NArith List.\nFrom SG Require Import Report.Summary Report.Stats Report.Escape Report.Uri.", exprs)
     bad = 0
     for g, e in zip(got, expect):
         if [int(x) for x in re.findall(r"\d+", g)] != e:
@@ -890,7 +907,7 @@ def run(ctx):
         ctx.sample({"project_tags": sorted(P.tags), "config": P.config, "files": [k.decode("utf-8", "replace") for k in list(P.files)[:8]]})
     ctx.cov["trusted_base"] = TRUSTED_COMMON + [
         "SARIF: validated against a hand-transcribed subset of sarif-schema-2.1.0 (allowed/required properties, enums, integer minima of the 13 object "
-        "types the tool emits); the official schema file is not in the sandbox",
+        "types the tool emits) plus RFC 3986 uri-reference syntax of every artifactLocation.uri; the official schema file is not in the sandbox",
         "python extractors for the unescaped formats (text, Markdown): a file name that itself forges a header/row line is outside the generated names",
         "python html.parser as the reference HTML tokenizer; serde_json for JSON well-formedness of strings",
         "std HashMap: iteration order is some permutation of the entries (modelled by the selection code pi); rayon collect preserves order",
